@@ -9,6 +9,7 @@ import (
 	"path/filepath"
 	"strings"
 	"sync"
+	"sync/atomic"
 	"time"
 )
 
@@ -32,6 +33,8 @@ var solvers = []solverSpec{
 	}},
 }
 
+var querySeq int64
+
 type solveResult struct {
 	status  string // unsat | sat | unknown
 	backend string
@@ -42,7 +45,9 @@ type solveResult struct {
 
 // race runs every solver on the query; the first definite answer wins.
 func race(query string, timeout time.Duration, dir string, tag string, wantAll bool) solveResult {
-	file := filepath.Join(dir, sanitize(tag)+".smt2")
+	// one file per query: obligation names are not unique within a unit (several loops'
+	// cover checks share a name) and workers run concurrently
+	file := filepath.Join(dir, fmt.Sprintf("%s.%d.smt2", sanitize(tag), atomic.AddInt64(&querySeq, 1)))
 	if err := os.WriteFile(file, []byte(query), 0o644); err != nil {
 		return solveResult{status: "unknown", output: err.Error()}
 	}
